@@ -18,9 +18,10 @@ META = {
               'enspara/ra/ra.py'],
     'functions': ['enspara.cluster.kcenters.kcenters(mpi_mode=True) / _kcenters_iteration_mpi', 'enspara.mpi.ops.convert_local_indices / '
                   'assemble_striped_array / assemble_striped_ragged_array / striped_array_max / striped_array_mean / distribute_frame / randind',
-                  'enspara.cluster.kmedoids.ctr_ids_mpi'],
+                  'enspara.cluster.kmedoids.ctr_ids_mpi', 'enspara.cluster.hybrid.hybrid(mpi_mode=True) -> _kmedoids_pam_update with (rank, index) medoids / '
+                  '_propose_new_center_amongst(mpi_mode=True)'],
     'bounds': {'quick': 'world size W in {1,2,3}; trajectory-length vectors with total N<=5 frames dealt round-robin (including ranks that own '
-                        'a single trajectory / a single frame); k<=3 centers, symbolic radius; reductions on local arrays of length<=3',
+                        'a single trajectory / a single frame); k<=3 centers, symbolic radius; distributed hybrid (k-centers + one PAM sweep) W=2, N<=4, k=2; reductions on local arrays of length<=3',
                'thorough': 'W<=4, N<=6'},
     'stubs': ['mpi4py.MPI.COMM_WORLD = SPMD simulator: ranks run one at a time and hand over only inside collectives; allgather / bcast / '
               'Bcast (in place) / allreduce(MAX|SUM) / Barrier with MPI semantics; the simulator CHECKS that all ranks issue the same '
@@ -29,7 +30,7 @@ META = {
     'assumptions': ['tie-free data (all pairwise distances different), as the property states',
                     'MPI semantics: with matching collectives the results do not depend on the arrival order of the ranks',
                     'exact real arithmetic'],
-    'outside': ['real MPI transport', 'mpi.io.load_*_as_striped file I/O', 'distributed k-medoids sweep (not built)', 'W beyond the bound'],
+    'outside': ['real MPI transport', 'mpi.io.load_*_as_striped file I/O under W>1 (W=1 in C15)', 'W beyond the bound'],
 }
 
 _PREP = {}
@@ -152,6 +153,102 @@ def kcenters_mpi_job(lengths, W, k, mode='both'):
         obs = compare(outs, list(ser.center_indices), list(cells(ser.assignments)), list(cells(ser.distances)))
         obs.append(('all-ranks-issued-the-same-collective-sequence', True))
         return PathOut(obs, {}, witness, desc='kcenters mpi W=%d lengths=%s: %d collectives' % (W, lengths, len(log)))
+    return path
+
+
+def hybrid_mpi_job(lengths, W, k, sweeps=1):
+    """distributed k-hybrid (k-centers + PAM sweeps with (rank, index) medoids): the reassembled state satisfies the
+    serial invariants (C01 oracle) and the cost does not exceed the k-centers cost"""
+    lengths = list(lengths)
+    N = sum(lengths)
+
+    def path(ctx):
+        from harness import cluster
+        kc, km, hy, cu, ops = cluster.mods()
+        M = Metric(ctx, N, tiefree=True)
+        own, ids = stripes(lengths, W)
+        glen = np.array(lengths)
+        rs = stubs.SymRandom()
+
+        def rank_main(r):
+            Xl = SArr.from_typed(np.array(ids[r], dtype=int).reshape(-1, 1))
+            res = hy.hybrid(Xl, M, n_iters=sweeps, n_clusters=k, mpi_mode=True, random_state=rs)
+            d = ops.assemble_striped_ragged_array(res.distances, glen)
+            a = ops.assemble_striped_ragged_array(res.assignments, glen)
+            c = ops.convert_local_indices(res.center_indices, glen)
+            return {'centers': list(c), 'assignments': list(cells(a)), 'distances': list(cells(d)),
+                    'center_frames': [x for x in res.centers]}
+        exc = None
+        try:
+            outs = spmd.WORLD.run(W, rank_main)
+            ser = kc.kcenters(SArr.from_typed(np.arange(N).reshape(-1, 1)), M, n_clusters=k)
+        except (Exception, spmd.Deadlock) as e:
+            exc = e
+        from harness.cluster import oracle_consistent, cost_of, ReplayRandom, PatchedRandom, _R
+        draws = [v for _, v in stubs.current_log()]
+
+        def witness(model):
+            T = M.table(model)
+            sc = scale_of([x for row in T for x in row])
+            metric, Mx = concrete_metric(T, sc)
+            dv = [int(ev(model, v)) for v in draws]
+            out = {'inputs': {'lengths': lengths, 'world_size': W, 'n_clusters': k, 'D': [[float(x) for x in row] for row in T],
+                              'random_draws': dv}, 'skip_compare': True, 'out': None}
+            crs = ReplayRandom(dv)
+
+            def rm2(r):
+                Xl = np.array(ids[r], dtype=int).reshape(-1, 1)
+                res = hy.hybrid(Xl, metric, n_iters=sweeps, n_clusters=k, mpi_mode=True, random_state=crs)
+                d = ops.assemble_striped_ragged_array(res.distances, glen)
+                a = ops.assemble_striped_ragged_array(res.assignments, glen)
+                c = ops.convert_local_indices(res.center_indices, glen)
+                return {'center_indices': [int(x) for x in c], 'assignments': [int(x) for x in a],
+                        'distances': [float(x) / sc for x in d], 'centers': [int(np.asarray(f).reshape(-1)[0]) for f in res.centers]}
+            with core.concrete_mode(), PatchedRandom(km, hy, crs):
+                try:
+                    o2 = spmd.WORLD.run(W, rm2)
+                    s2 = kc.kcenters(np.arange(N).reshape(-1, 1), metric, n_clusters=k)
+                except (Exception, spmd.Deadlock) as e:
+                    out.update(exception=repr(e), violated=['raises ' + type(e).__name__],
+                               signature='hybrid-mpi:exception:' + type(e).__name__)
+                    return out
+            dfun = lambda i, j: float(T[int(i)][int(j)])
+            bad = []
+            for o in o2:
+                bad += run_oracle(oracle_consistent(N, _R(o), dfun))
+                if sum(x * x for x in o['distances']) > sum((float(x) / sc) ** 2 for x in s2.distances) * (1 + 1e-12) + 1e-15:
+                    bad.append('cost above the k-centers cost')
+                if o != o2[0]:
+                    bad.append('ranks disagree on the reassembled state')
+            out['out'] = o2[0]
+            out['violated'] = sorted(set(bad))
+            return out
+        if exc is not None:
+            return PathOut([('no-exception-and-no-deadlock', False)], {}, witness, exc=type(exc).__name__,
+                           desc='raises %s: %s' % (type(exc).__name__, str(exc)[:120]))
+        obs = []
+
+        class R:
+            pass
+        for r, o in enumerate(outs):
+            res = R()
+            res.center_indices = o['centers']
+            res.assignments = o['assignments']
+            res.distances = o['distances']
+            res.centers = [core.SInt.mk(core.to_z3_int(_raw(f).reshape(-1)[0])) if isinstance(f, SArr) else int(np.asarray(f).reshape(-1)[0])
+                           for f in o['center_frames']]
+            for lab, c in oracle_consistent(N, res, M.d):
+                obs.append(('rank %d: %s' % (r, lab), c))
+            obs.append(('rank %d: number of clusters kept' % r, len(o['centers']) == len(ser.center_indices)))
+            obs.append(('rank %d: cost not above the k-centers cost' % r,
+                        cost_of(o['distances']) <= cost_of(list(cells(ser.distances)))))
+        o0 = outs[0]
+        same = []
+        for o in outs[1:]:
+            same += [x == y for x, y in zip(o['centers'] + o['assignments'] + o['distances'],
+                                           o0['centers'] + o0['assignments'] + o0['distances'])]
+        obs.append(('all-ranks-reassemble-the-same-state', conj(same) if same else True))
+        return PathOut(obs, {}, witness, desc='hybrid mpi W=%d lengths=%s k=%d' % (W, lengths, k))
     return path
 
 
@@ -305,6 +402,8 @@ def jobs(tier):
             add('kcenters_mpi_job', 'kcenters-mpi[%s,W=%d,k=%d]' % (list(lv), W, k), lengths=lv, W=W, k=k, mode='both')
         add('kcenters_mpi_job', 'kcenters-mpi[%s,W=%d,radius]' % (list(lv), W), lengths=lv, W=W, k=None, mode='r')
         add('convert_job', 'convert[%s,W=%d]' % (list(lv), W), lengths=lv, W=W)
+    for lv, W, k in (((2, 1), 2, 2), ((2, 2), 2, 2), ((1, 2, 1), 2, 2)) + (() if q else (((2, 1, 1), 3, 2), ((2, 2), 2, 3))):
+        add('hybrid_mpi_job', 'hybrid-mpi[%s,W=%d,k=%d]' % (list(lv), W, k), lengths=lv, W=W, k=k)
     for W, ll in ((1, (3,)), (2, (2, 1)), (2, (1, 3)), (3, (1, 2, 1)), (3, (2, 2, 2))):
         for what in ('max', 'mean', 'randind'):
             add('ops_job', 'ops.%s[W=%d,%s]' % (what, W, list(ll)), W=W, local_lens=ll, what=what)
